@@ -19,6 +19,8 @@ class EngineProp(Prop):
     thorough_search_s = 240
     trusted_base = [
         "Coq 8.16.1 kernel + vm_compute (no native_compute)",
+        "service-level cases: harness/lib/svcx (copy of the C06 agent's stopx: real lifecycle / connector / processor / "
+        "pipeline services on an in-memory store, fake plugins); monitors only, the ack observed is the plugin's",
         "Go harness harness/cmd/c01 + harness/lib/enginex (gated fake source/destination/DLQ/processor "
         "implementations of the funnel.* and stream.* interfaces, environment scheduler, one mutex guarded event log)",
         "python driver verifpy/core.py",
@@ -55,6 +57,9 @@ class EngineProp(Prop):
         out = [self._args(seed, 375, corpus if k == 0 else ()) for k in range(16)]
         for g in (1, 2, 16):
             out.append(self._args(seed + 1000 + g, 200, ["--gomaxprocs", str(g)]))
+        # a larger share of runs of the real lifecycle services (plugin-level acks, monitors only)
+        for k in (1, 2):
+            out.append(self._args(seed + 2000 + k, 150, ["--level", "service"]))
         # exhaustive: every filter mask of a batch of 5..8 records through filter -> transform (v2)
         out.append(self._args(seed, 0, ["--family", "masks"]))
         return out
@@ -85,13 +90,14 @@ class EngineProp(Prop):
         return len(case["observed"]["log"]) < 60 and self.nontrivial(case)
 
     def distribution(self, cases):
-        d = {"v1": 0, "v2": 0, "malformed": 0, "with_ctl_stop": 0, "with_ctl_cancel": 0, "engine_error_runs": 0,
+        d = {"v1": 0, "v2": 0, "service_level_runs": 0, "malformed": 0, "with_ctl_stop": 0, "with_ctl_cancel": 0, "engine_error_runs": 0,
              "runs_with_dlq_write": 0, "runs_with_filter": 0, "runs_with_dest_nack": 0, "hangs": 0,
              "v1_parallel_node_shutdown_deadlocks": 0, "engine_crashed_the_child_process": 0,
              "NxM": {}, "gomaxprocs": {}, "events": 0}
         for c in cases:
             i, o = c["input"], c["observed"]
             d[i["engine"]] += 1
+            d["service_level_runs"] += i.get("level") == "service"
             d["malformed"] += bool(i.get("malformed"))
             ctl = i.get("ctl")
             if ctl:
